@@ -147,18 +147,37 @@ def step (s : St) : Ev → Option St
     | some .crashed => some { s with th := s.th.set t (.retd .pop .panic) }
     | _ => none
 
-/-- the internal event a call in state `ts` can take next -/
-def TS.cand (t : Nat) : TS → List Ev
-  | .pushLoad _ | .popLoad => [.load t]
+/-- the `cas` of a call that has loaded -/
+def TS.casCand (t : Nat) : TS → List Ev
   | .pushCas _ _ | .popCas _ _ => [.cas t]
   | _ => []
 
-/-- internal events worth trying: `load`/`cas` of every call that is in flight -/
-def cands (s : St) : List Ev :=
+/-- the `load` of a call that is about to load -/
+def TS.loadCand (t : Nat) : TS → List Ev
+  | .pushLoad _ | .popLoad => [.load t]
+  | _ => []
+
+def candsBy (f : Nat → TS → List Ev) (s : St) : List Ev :=
   (List.range s.th.length).flatMap fun t =>
     match s.th[t]? with
-    | some ts => ts.cand t
+    | some ts => f t ts
     | none => []
+
+/-- internal events the driver tries. **Reduced search**: if some call is between its load and its
+CAS, only such CASes are tried; otherwise the loads of all calls in flight. So in the explored runs a
+load is immediately followed (up to observable events) by the CAS of the same call, which then
+succeeds. Nothing observable is lost: a failed attempt (load … failed CAS) changes no shared
+variable, and the last load of a call can be moved right before its successful CAS. This is proved:
+`Props.reduced_search_complete` shows that every linearizable history — in particular every
+observable trace of the unreduced model (`Props.treiber_linearizable`) — is the trace of a run that
+uses only these candidates. (`accepts_sound` holds for any candidate function.) -/
+def cands (s : St) : List Ev :=
+  match candsBy TS.casCand s with
+  | [] => candsBy TS.loadCand s
+  | cs => cs
+
+/-- all enabled internal events (unreduced) -/
+def allCands (s : St) : List Ev := candsBy TS.casCand s ++ candsBy TS.loadCand s
 
 def model : OLTS St Ev Obs where
   init := {}
